@@ -12,14 +12,19 @@ use std::io::Write;
 const HAND: &[&str] = &[
     "LIST colours = (red), green, shared\nLIST moods = calm, (shared), angry\nVAR v = 0\nVAR picked = shared\n-> start\n=== start ===\n~ v = LIST_VALUE(shared)\nValue {v} {(shared)} {(shared, red)} {picked} {LIST_ALL(picked)}\n{LIST_MIN((red, calm))} {LIST_MAX((green, calm))} {LIST_RANDOM((red, calm, green, angry))}\n* [go] -> other\n* [stay] {LIST_RANDOM(LIST_ALL(colours))} -> END\n=== other ===\n{(calm, shared)} {LIST_ALL((shared))} {colours(2)} {moods(2)}\n-> END\n",
     "LIST a = x = 1, (y = 2), z = 3\nLIST b = (x = 1), y = 2, w = 3\nLIST c = z = 3, w = 1, (x = 2)\nVAR s = ()\n~ s = (x, w)\nFirst {(x)} {(y, z)} {(w)} {s}\n~ s += y\n{s} {LIST_COUNT(s)} {LIST_MIN(s)} {LIST_MAX(s)} {LIST_MIN(LIST_ALL(a) + LIST_ALL(b))} {LIST_MAX(LIST_ALL(b) + LIST_ALL(c))}\n{~one|two|three|four} {RANDOM(1, 100)} {LIST_RANDOM(LIST_ALL(a) + LIST_ALL(c))}\n+ [again] -> loop\n=== loop ===\n{~p|q|r} {RANDOM(1, 6)} {LIST_RANDOM(LIST_ALL(b))}\n+ {loop < 4} [more] -> loop\n* [done] -> END\n",
+    // seeds at the ends of the int range, set by the story itself
+    "LIST l = (a), (b), (c), (d)\nVAR n = 0\n~ SEED_RANDOM(2147483647)\n{RANDOM(1, 6)} {RANDOM(1, 6)} {LIST_RANDOM(l)} {~one|two|three} {RANDOM(1, 100)}\n~ SEED_RANDOM(-2147483647)\n{RANDOM(1, 6)} {LIST_RANDOM(l)} {~x|y|z|w}\n~ SEED_RANDOM(2000000000)\n{LIST_RANDOM(l)} {RANDOM(1, 9)} {RANDOM(1, 9)}\n+ [again] -> loop\n=== loop ===\n~ n = n + 1\n~ SEED_RANDOM(2147483640 + n)\n{~p|q|r|s} {RANDOM(1, 6)} {LIST_RANDOM(l)} {RANDOM(1, 6)}\n+ {loop < 5} [more] -> loop\n* [done] -> END\n",
 ];
 
-fn host_for(c: &Compiled) -> HostCfg {
+/// story seeds, including the ends of the i32 range (seed arithmetic must wrap the same way in every build)
+const SEEDS: &[i32] = &[42, 0, 1, i32::MAX, 2_000_000_000, -1, i32::MIN, i32::MAX - 7];
+
+fn host_for(c: &Compiled, seed: i32) -> HostCfg {
     HostCfg {
         handler: true,
         fallbacks: true,
         fuel: Some(30_000),
-        seed: Some(42),
+        seed: Some(seed),
         bind: vec![], // unbound externals use their fallbacks or produce the (sorted) missing-binding error
         observe: c.info.globals.iter().take(3).enumerate().map(|(k, g)| (k, g.clone())).collect(),
     }
@@ -80,8 +85,21 @@ pub fn run(cfg: &Cfg) -> i32 {
         }
         for h in 0..cfg.pick(2, 3) as u64 {
             let mut rng = Rng::derive(cfg.seed, "C03-hist", si as u64 * 10 + h);
-            let host = host_for(c);
-            let hc = HistCfg { max_ops: cfg.pick(30, 50), flows: h == 1, jumps: false, cont_max: h == 2, set_vars: true, stop_at_end: true, jump_targets: None };
+            let story_seed = SEEDS[(si + h as usize * 3) % SEEDS.len()];
+            let host = host_for(c, story_seed);
+            // Warm-up: the same program played with a DIFFERENT seed first, on this thread, by an instance that is
+            // then dropped. It must leave no trace. The seed depends on the run label, so the processes the driver
+            // compares warm up differently, and the run in a fresh thread below does not warm up at all.
+            {
+                let label_salt = fnv(cfg.get("run-label").unwrap_or("in-process")) as i32;
+                let warm = host_for(c, story_seed.wrapping_add(1 + (label_salt & 0xff)));
+                let mut wrng = Rng::derive(cfg.seed, "C03-warmup", si as u64 * 10 + h);
+                let whc = HistCfg { max_ops: 12, flows: false, jumps: false, cont_max: false, set_vars: false, stop_at_end: true, bad_calls: false, jump_targets: None };
+                let _ = std::panic::catch_unwind(std::panic::AssertUnwindSafe(|| gen_history(c, &warm, &mut wrng, &whc)));
+                let _ = crate::util::take_last_panic();
+                rep.count("warm-up-plays-with-another-seed");
+            }
+            let hc = HistCfg { max_ops: cfg.pick(30, 50), flows: h == 1, jumps: false, cont_max: h == 2, set_vars: true, stop_at_end: true, bad_calls: false, jump_targets: None };
             let first = std::panic::catch_unwind(std::panic::AssertUnwindSafe(|| gen_history(c, &host, &mut rng, &hc)));
             let hist = match first {
                 Ok(Ok(h)) => h,
@@ -139,6 +157,35 @@ pub fn run(cfg: &Cfg) -> i32 {
                 }
             }
             let _ = distinct_transcripts;
+            // the same history in a thread that has never run a story (no warm-up, no earlier cases)
+            {
+                let json_text: String = (*c.json).clone();
+                let name = c.name.clone();
+                let ops = hist.ops.clone();
+                let host2 = host.clone();
+                let handle = std::thread::Builder::new().stack_size(64 << 20).spawn(move || -> Result<(Vec<crate::player::Rec>, crate::player::FullState), String> {
+                    let c2 = from_json(&name, json_text, None).ok_or("unreadable story")?;
+                    let mut p = Player::new(c2.json.clone(), c2.info.clone(), host2)?;
+                    for op in ops.iter() {
+                        p.apply(op);
+                    }
+                    Ok((p.recs.clone(), p.full_state()))
+                });
+                match handle.map(|h| h.join()) {
+                    Ok(Ok(Ok((recs, state)))) => {
+                        rep.count("fresh-thread-runs-compared");
+                        let wit = |what: &str, detail: serde_json::Value| {
+                            json!({"program": c.name, "source": c.src.as_ref().map(|s| truncate(s, 4000)), "story_seed": story_seed, "history": hist.ops.iter().map(|o| o.show()).collect::<Vec<_>>(), "what": what, "detail": detail, "first_run_log": recs_json(&hist.recs)})
+                        };
+                        if let Some(d) = cmp_recs(&hist.recs, &recs, &opts) {
+                            rep.violation(&format!("depends-on-earlier-plays-in-the-thread/{}", d.field), wit("a run in a fresh thread differs from the run made after other plays (another seed, other programs) on this thread", d.to_json()));
+                        } else if let Some(d) = cmp_state(&hist.final_state, &state, true) {
+                            rep.violation("depends-on-earlier-plays-in-the-thread/final-state", wit("final variables or visit counts differ", d.to_json()));
+                        }
+                    }
+                    _ => rep.inconclusive("fresh-thread-run-failed"),
+                }
+            }
             let tr: String = hist.recs.iter().map(|r| format!("{:?}|{:?}|{:?}|{:?}\n", r.op, r.res, r.snap, crate::lockstep::canon_events(&r.events))).collect();
             let save_s = first_save.map(|s| s.to_string()).unwrap_or_default();
             // the story seed is fixed by the host, so the save is comparable across processes
